@@ -28,6 +28,7 @@ SCENARIOS = [
     (r'__await__\.wait/callsite:get_nowait/requires', 'rp_fifo_inversion.py'),
     (r'BaseEvent\.event_bus/ensures', 'rp_event_bus_after_forward.py'),
     (r'event_results_by_handler_name/safety:dictcomp_keys_distinct', 'rp_by_handler_name_duplicates.py'),
+    (r'BaseEvent\.(event_results_filtered|event_results_by_handler_id|event_results_list|event_result)/(ensures:|raises:requested_raise)', 'rp_accessor_family.py'),
     (r'process_event/ensures:completion_propagated', 'rp_evicted_parent_never_completes.py'),
     (r'semaphore\.acquire/requires:cached_semaphore', 'rp_semaphore_across_loops.py'),
     (r'helpers\._execute_with_retries/', 'rp_retry_family.py'),
